@@ -366,6 +366,16 @@ func runCKKSRefreshBody(c CKKSCase, rec *h.Rec) error {
 		if out.Scale.Cmp(ds) != 0 {
 			return h.Failf("C16:mpckks:"+c.Mode+":Transform:output-scale", "output scale 2^%.3f, documented: default scale of the output parameters 2^%.3f (input scale 2^%.3f)", out.LogScale(), ds.Log2(), log2Big(m.scale))
 		}
+		// apart from the documented changes (scale = default scale, IsBatched = transform.Encode) the output carries the
+		// input's metadata, whatever the receiver held before
+		wantMD := *ctOrig.MetaData
+		wantMD.Scale = ds
+		if tf != nil {
+			wantMD.IsBatched = tf.Encode
+		}
+		if !out.MetaData.Equal(&wantMD) {
+			return h.Failf("C16:mpckks:"+c.Mode+":Transform:output-metadata", "output metadata %+v, expected %+v (outMode=%d, first use=%v)", out.MetaData, wantMD, r.outMode, r.first)
+		}
 		key := fmt.Sprintf("C16:mpckks:%s:wrong-message:decode=%v,encode=%v", c.Mode, c.Decode, c.Encode)
 		if err := x.checkOutputP(paramsOut, gapOut, key, out, outKeys.ideal, want, tol, tolOff, rec); err != nil {
 			return err
